@@ -29,7 +29,6 @@ import (
 	"github.com/lestrrat-go/jwx/v2/jwe"
 	"github.com/lestrrat-go/jwx/v2/jws"
 	"github.com/nuts-foundation/nuts-node/audit"
-	nutsCrypto "github.com/nuts-foundation/nuts-node/crypto"
 	"github.com/nuts-foundation/nuts-node/crypto/dpop"
 	"github.com/sirupsen/logrus"
 
@@ -121,12 +120,6 @@ func entryShapes(t *testing.T) ([]entryShape, []canary) {
 				t.Fatal(err)
 			}
 			cs = append(cs, c...)
-			// every full base64 line of the PEM body (an echoed entry keeps its lines)
-			for _, line := range strings.Split(string(e), "\n") {
-				if len(line) == 64 && !strings.HasPrefix(line, "-----") {
-					cs = append(cs, canary{name, "pem-line", []byte(line[:48])})
-				}
-			}
 		}
 	}
 	return shapes, cs
@@ -218,7 +211,9 @@ func TestVerifC03Entries(t *testing.T) {
 			{"Exists", func() (string, error) { ok, err := l.c.Exists(ctx, kid); return fmt.Sprint(ok), err }},
 			{"Resolve", func() (string, error) { p, err := l.c.Resolve(ctx, kid); return fmt.Sprintf("%T", p), err }},
 			{"SignJWT", func() (string, error) { return l.c.SignJWT(ctx, map[string]interface{}{"iss": "verif"}, nil, kid) }},
-			{"SignJWS", func() (string, error) { return l.c.SignJWS(ctx, []byte("payload"), map[string]interface{}{}, kid, false) }},
+			{"SignJWS", func() (string, error) {
+				return l.c.SignJWS(ctx, []byte("payload"), map[string]interface{}{}, kid, false)
+			}},
 			{"SignDPoP", func() (string, error) {
 				req, _ := nethttp.NewRequest("POST", "https://verif.example/token", nil)
 				return l.c.SignDPoP(ctx, *dpop.New(*req), kid)
